@@ -100,6 +100,7 @@ func init() {
 		m["nd:ndAddr"] = atom(20)
 		m["nd:ndHash"] = atom(32)
 		m["nd:ndString"] = atom(16)
+		m["nd:ndBech32"] = atom(45)
 		m["nd:ndHexVal"] = func(ex *Exec, fr *frame, cc *ssa.CallCommon, a []Value) Value {
 			t := ex.ndInt(symName(a[0]), big.NewInt(0), nil)
 			return VStr{Atom: &t, HexNum: true}
